@@ -272,6 +272,52 @@ def coercion_cases(ctx):
                  "XML container coercion through the Tag API wrong", repr(x.attrs), "{'n': '0', 't': True, 'q': ''}")
 
 
+def construction_and_sharing(ctx):
+    """(a) attribute values given when a Tag is constructed go through the same container coercions as assigned ones;
+    (b) a copy of a document keeps its builder's attribute configuration; (c) every tag owns its attribute value lists:
+    an in-place edit of one tag's list changes no other tag, no later new_tag() and no later parse."""
+    import copy as _copy
+    for kind, kw in (("html", {}), ("xml", {"is_xml": True})):
+        for v in VALUES:
+            if isinstance(v, list):
+                continue
+            try:
+                t = Tag(name="a", attrs={"x": v, "keep": "k"}, **kw)
+                got = ("set", norm_val(t.attrs["x"])) if "x" in t.attrs else ("del",)
+            except Exception as e:
+                got = ("EXC", type(e).__name__)
+            exp = expected_coercion(kind, "x", v)
+            exp = (exp[0], norm_val(exp[1])) if exp[0] == "set" else exp
+            ctx.case(("ctor-coercion", kind, repr(v)))
+            if got != exp:
+                ctx.fail({"construct": "Tag(name='a', attrs={'x': %r}%s)" % (v, ", is_xml=True" if kw else "")},
+                         "a value given at construction is not coerced like an assigned one (%s container)" % kind, got, exp,
+                         tag="ctor-coercion")
+    for cname, kw in (("mva-none", {"multi_valued_attributes": None}), ("mva-custom", {"multi_valued_attributes": {"*": {"data-x"}}}),
+                      ("default", {})):
+        soup = BeautifulSoup('<a class="p q" data-x="r s"></a>', "html.parser", **kw)
+        c = _copy.copy(soup)
+        ctx.case(("copy-config", cname))
+        for what, mk in (("original", soup), ("copy", c)):
+            t = mk.new_tag("b", attrs={"class": "u v", "data-x": "w z"})
+            exp_class = ["u", "v"] if cname == "default" else "u v"
+            exp_dx = ["w", "z"] if cname == "mva-custom" else "w z"
+            got = (list(t["class"]) if isinstance(t["class"], list) else t["class"],
+                   list(t["data-x"]) if isinstance(t["data-x"], list) else t["data-x"])
+            if got != (exp_class, exp_dx):
+                ctx.fail({"config": cname, "new_tag_from": what}, "new_tag() of a %s does not apply the builder's multi-valued configuration" % what,
+                         got, (exp_class, exp_dx), tag="copy-config")
+    soup = BeautifulSoup('<a class="x y" rel="n m"></a><b class="x y"></b><link rel="n m">', "html.parser")
+    soup.a["class"].append("zz"); soup.a["rel"].clear()
+    later = BeautifulSoup('<i class="x y"></i><a rel="n m"></a>', "html.parser")
+    fresh = soup.new_tag("u", attrs={"class": "x y"})
+    obs = (list(soup.b["class"]), list(soup.link["rel"]), list(later.i["class"]), list(later.a["rel"]), list(fresh["class"]))
+    ctx.case(("list-ownership",))
+    if obs != (["x", "y"], ["n", "m"], ["x", "y"], ["n", "m"], ["x", "y"]):
+        ctx.fail({"edit": "a['class'].append('zz'); a['rel'].clear() on one of several tags with textually identical values"},
+                 "attribute value lists are shared between tags / parses", obs, "every other list unchanged", tag="list-ownership")
+
+
 def dup_cases(ctx):
     rng = ctx.rng
     names = ["x", "y", "z"]
@@ -345,6 +391,7 @@ def run(ctx):
         split_cases(ctx)
         table_cases(ctx)
         coercion_cases(ctx)
+        construction_and_sharing(ctx)
         dup_cases(ctx)
 
 
